@@ -281,6 +281,11 @@ def make_helpers(exe):
     def real(v):
         return z3.RealVal(str(v))
 
+    def dbl(v):
+        """the exact real value of the C double literal v (specifications compare against the same constant as the code)."""
+        from fractions import Fraction
+        return z3.RealVal(str(Fraction(float(v))))
+
     def num_of_int(x):
         """the mjtNum an integer converts to (same function the executor uses in opaque mode)."""
         from .sem import OpaqueNum
@@ -317,7 +322,7 @@ def make_helpers(exe):
 
     return dict(And=h_and, Or=h_or, Not=h_not, implies=h_implies, ite=h_ite, iff=h_iff, forall=forall,
                 exists=exists, forall_real=forall_real, exists_real=exists_real, u64=u64, is_pow2=is_pow2, arr=arr, off=off, NULL=NULL, pmod=pmod, elem=elem, tagat=tagat, at=at, imin=imin, imax=imax,
-                iabs=iabs, lit=lit, sizeof=sizeof, num_of_int=num_of_int, byte_of_num=byte_of_num, bool_of_num=bool_of_num, num_zero=num_zero, trunc=trunc, isnan=isnan, fp=fp, real=real, same_obj=same_obj,
+                iabs=iabs, lit=lit, sizeof=sizeof, num_of_int=num_of_int, byte_of_num=byte_of_num, bool_of_num=bool_of_num, num_zero=num_zero, trunc=trunc, isnan=isnan, fp=fp, real=real, dbl=dbl, same_obj=same_obj,
                 true=z3.BoolVal(True), false=z3.BoolVal(False), z3=z3, Select=z3.Select, Store=z3.Store,
                 fpLT=z3.fpLT, fpLEQ=z3.fpLEQ, fpGT=z3.fpGT, fpGEQ=z3.fpGEQ, fpEQ=z3.fpEQ, fpAbs=z3.fpAbs,
                 fpIsInf=z3.fpIsInf, fpNeg=z3.fpNeg, ToReal=z3.ToReal, ToInt=z3.ToInt, Sum=z3.Sum)
